@@ -163,3 +163,63 @@ add_feature = Contract(
     assumptions=['functools.lru_cache modelled as a ghost memo table per decorated method; cache_clear empties it'],
 )
 UNITS.append(add_feature)
+
+
+# ------------------------------------------------------------------------------ FeatureAnnotatedMolecule.annotate: read annotation reports
+# exactly what the container returns for the molecule's blocks, queried on the requested strand
+FAM = 'singlecellmultiomics/molecule/featureannotatedmolecule.py'
+
+
+def ann_setup(eng):
+    from pyvc.engine import Obj, Sym, named, fresh, INT, BOOL, STR
+    from pyvc import stubs, externals
+    eng.ghost.clear()
+    eng.ghost['queries'] = []
+    eng.spec_env['GHOST'] = eng.ghost
+    hit = (named(INT, 'hit_start'), named(INT, 'hit_end'), named(STR, 'hit_id'), named(STR, 'hit_strand'), named(STR, 'hit_ids'))
+    eng.spec_env['HIT'] = hit
+    block = (named(INT, 'block_start'), named(INT, 'block_end'))
+    eng.spec_env['BLOCK'] = block
+
+    def between(e, o, chromosome=None, sampleStart=None, sampleEnd=None, strand=None, **k):
+        e.ghost['queries'].append((chromosome, sampleStart, sampleEnd, strand))
+        return [hit] if e.branch(fresh(BOOL, 'container_reports_a_hit').z) else []
+    stubs.STUBS['FeatureContainerStub'] = {'methods': {'findFeaturesBetween': between}, 'props': {}, 'setters': {}}
+    eng.loader.call_hooks['singlecellmultiomics.molecule.molecule.Molecule.get_aligned_blocks'] = lambda e, f, a, k, n: [block]
+
+
+def ann_self(stranded):
+    def mk(eng, name):
+        from pyvc.engine import Obj, named, BOOL
+        from pyvc import externals
+        fc = Obj('FeatureContainerStub', {})
+        fc.vc_immutable = True
+        return Obj('FeatureAnnotatedMolecule', {'stranded': stranded, 'strand': named(BOOL, 'molecule_strand'), 'is_annotated': False,
+                                                'features': fc, 'chromosome': 'chr1', 'capture_locations': False,
+                                                'hits': externals.DefaultDict(externals.Builtin('set', lambda e, a, k, n: set())),
+                                                'feature_locations': {}},
+                   info=eng.loader.classref(FAM, 'FeatureAnnotatedMolecule'))
+    return mk
+
+
+def annotate_unit(stranded):
+    want = {None: 'None', True: '("-" if not self.strand else "+")', False: '("-" if self.strand else "+")'}[stranded]
+    return Contract(
+        PROP, FAM + '::FeatureAnnotatedMolecule.annotate', name='FeatureAnnotatedMolecule.annotate[stranded=%s]' % stranded,
+        params={'self': ann_self(stranded), 'method': ('const', 0)},
+        setup=ann_setup,
+        ensures={
+            # stranded None: both strands; True: the strand opposite to the molecule; False: the strand of the molecule
+            'one_range_query_per_block_on_the_requested_strand':
+                'GHOST["queries"] == [("chr1", BLOCK[0], BLOCK[1], %s)]' % want,
+            'reports_exactly_the_features_the_container_returned':
+                'len(self.hits) <= 1 and all(k == HIT[4] and self.hits[k] == {("chr1", (HIT[0], HIT[1]))} for k in self.hits)',
+            'marked_annotated': 'self.is_annotated == True',
+        },
+        raises={},
+        bounded='one aligned block, at most one feature returned by the container',
+        assumptions=['FeatureContainer.findFeaturesBetween through a recording stub (its exactness: units above); get_aligned_blocks stubbed'],
+    )
+
+
+UNITS += [annotate_unit(None), annotate_unit(True), annotate_unit(False)]
